@@ -532,13 +532,135 @@ fn run(sc: &J, t: &mut Tracer) {
 	drop(clocks);
 }
 
+/// a sound that notes, every time it is processed, whether the modulator it is linked to can be found
+struct LinkProbe {
+	id: ModulatorId,
+	seen: Arc<Mutex<Vec<bool>>>,
+}
+impl Sound for LinkProbe {
+	fn process(&mut self, out: &mut [Frame], _dt: f64, info: &Info) {
+		let found = info.modulator_value(self.id).is_some();
+		let seen = &self.seen;
+		unarmed(|| seen.lock().unwrap().push(found));
+		out.fill(Frame::ZERO);
+	}
+	fn finished(&self) -> bool {
+		false
+	}
+}
+struct LinkProbeData(LinkProbe);
+impl SoundData for LinkProbeData {
+	type Error = ();
+	type Handle = ();
+	fn into_sound(self) -> Result<(Box<dyn Sound>, ()), ()> {
+		Ok((Box::new(self.0), ()))
+	}
+}
+
+/// mode "pickup" (PickUpOrder.tla): the audio thread is stopped before the n-th drain of a ring of new resources within one
+/// callback; the gameplay thread then creates a modulator and something that reads it; the callback goes on.  Whenever
+/// the dependent is processed, its modulator has to be there.
+///   {"mode":"pickup","n":N,"dep":"sound"|"tsound"|"clock"}
+fn run_pickup(sc: &J, t: &mut Tracer) {
+	use kira::{backend::Renderer, AudioManager, AudioManagerSettings};
+	let n = sc["n"].as_u64().unwrap();
+	let dep = sc["dep"].as_str().unwrap();
+	t.reset(json!({"mode": "pickup", "n": n, "dep": dep, "buf": 4, "S": 4096, "tol": 0, "src": sc["src"]}));
+	let mut manager = AudioManager::<VBackend>::new(AudioManagerSettings {
+		capacities: Capacities::default(),
+		main_track_builder: MainTrackBuilder::new(),
+		internal_buffer_size: 4,
+		backend_settings: VSettings { sample_rate: RATE },
+	})
+	.unwrap();
+	let mut renderer = manager.backend_mut().renderer.take().unwrap();
+	// a sub-track that is already there (its own rings are drained within the mixer's turn)
+	let mut sub = manager.add_sub_track(TrackBuilder::new()).unwrap();
+	let _ = run_callback(&mut renderer, 4, 2);
+	let (tx, rx) = std::sync::mpsc::channel::<Renderer>();
+	tx.send(renderer).unwrap();
+	let aw: Worker<Renderer> = Worker::spawn("audio", move || rx.recv().unwrap());
+	aw.start(&["sto.refill"], |r| {
+		let res = run_callback(r, 4, 2);
+		json!({"panicked": res.panicked.is_some()})
+	});
+	// stop before the n-th drain (a callback without new resources passes one yield point per ring)
+	let mut st = aw.wait();
+	let mut passed = 1;
+	while passed < n && matches!(st, Status::Parked(_)) {
+		st = aw.resume();
+		passed += 1;
+	}
+	let parked = matches!(st, Status::Parked(_));
+	// gameplay thread: the modulator first (its id is needed), then what reads it
+	let tweener = manager.add_modulator(TweenerBuilder { initial_value: 1.0 }).unwrap();
+	let seen: Arc<Mutex<Vec<bool>>> = Default::default();
+	let mut clock = None;
+	match dep {
+		"sound" => manager.play(LinkProbeData(LinkProbe { id: tweener.id(), seen: seen.clone() })).unwrap(),
+		"tsound" => sub.play(LinkProbeData(LinkProbe { id: tweener.id(), seen: seen.clone() })).unwrap(),
+		_ => {
+			// a clock whose speed follows the modulator: 4 ticks per second at value 1 (2, the default, if it is not found)
+			let mut c = manager
+				.add_clock(KValue::FromModulator {
+					id: tweener.id(),
+					mapping: Mapping {
+						input_range: (0.0, 1.0),
+						output_range: (ClockSpeed::TicksPerSecond(2.0), ClockSpeed::TicksPerSecond(4.0)),
+						easing: Easing::Linear,
+					},
+				})
+				.unwrap();
+			c.start();
+			clock = Some(c);
+		}
+	}
+	aw.ctl.set_sites(&[]);
+	let mut panicked = !matches!(aw.finish(), Status::Done(_));
+	let units = |c: &ClockHandle| {
+		let ct = c.time();
+		ct.ticks as i64 * 4 + (ct.fraction * 4.0).round() as i64
+	};
+	let mut last = clock.as_ref().map(units).unwrap_or(0);
+	let mut steps = vec![];
+	for _ in 0..4 {
+		match aw.call(|r| {
+			let res = run_callback(r, 4, 2);
+			json!({"panicked": res.panicked.is_some()})
+		}) {
+			Status::Done(v) => panicked |= v["panicked"].as_bool().unwrap_or(false),
+			_ => panicked = true,
+		}
+		if let Some(c) = clock.as_ref() {
+			let now = units(c);
+			steps.push(now - last);
+			last = now;
+		}
+	}
+	// the clock runs at 4 ticks per second = 2 ticks (8 units) per buffer of half a second whenever it runs
+	let seen_v: Vec<bool> = if clock.is_some() { steps.iter().filter(|s| **s != 0).map(|s| *s == 8).collect() } else { seen.lock().unwrap().clone() };
+	if panicked {
+		t.ev(json!({"a": "panic", "who": "audio"}));
+	}
+	t.ev(json!({"a": "pick", "parked": parked, "seen": seen_v, "steps": steps}));
+	t.ev(json!({"a": "end"}));
+	drop(tweener);
+	drop(sub);
+	aw.shutdown();
+}
+
 fn main() {
 	let args: Vec<String> = std::env::args().collect();
 	let inp = arg(&args, "--in").expect("--in");
 	let out = arg(&args, "--out").expect("--out");
 	quiet_panics();
+	install_hook();
 	let mut t = Tracer::create(&out);
 	for sc in read_scenarios(&inp) {
+		if sc["mode"] == "pickup" {
+			run_pickup(&sc, &mut t);
+			continue;
+		}
 		run(&sc, &mut t);
 	}
 	t.flush();
